@@ -91,6 +91,11 @@ def run_check(pid, tier, seed, replay=None):
                     nospec.append(i)
             else:
                 nospec.append(i)
+    # property-specific failing-input search for mismatches that have no spec-level verdict
+    searchf = getattr(prop, "search", None)
+    found = []
+    if searchf and nospec and not viol:
+        found = searchf(dict(rundir=rundir, drv=drv, model_exe=model_exe, cases=cases, impl=impl, model=model, idx=nospec)) or []
     # property-specific extra checks (runtime observations, invariants of outputs)
     extra = getattr(prop, "extra", None)
     extra_cov = {}
@@ -119,7 +124,9 @@ def run_check(pid, tier, seed, replay=None):
                cases=[dict(case=cases[i].line, spec=cases[i].spec)], implementation=impl[i], model=model[i], spec=spv,
                build=" ".join(core.BASE_FLAGS), note="implementation differs from the proved-correct spec on this input",
                replay_cmd="bin/check %s --replay <this file>" % pid), True)
-    if nospec and not viol:
+    for keystr, payload in found:
+        report(keystr, payload, True)
+    if nospec and not viol and not found:
         i = nospec[0]
         report(keyf(cases[i], impl[i], model[i]), dict(kind="correspondence", property=pid,
                cases=[dict(case=cases[j].line, spec=cases[j].spec) for j in nospec[:5]], implementation=impl[i], model=model[i],
